@@ -353,7 +353,12 @@ def run_case(ch: Choices, params: dict) -> dict:
     for mi in range(n_mod):
         mistake = None
         if ch.draw(2, "has_fault") == 0:
-            mistake = {"kind": ch.pick(C11_MISTAKES, "mistake"), "k": ch.rng_int(1, 3, "k")}
+            # the kind is stratified over (case index, module) so that a short or loaded
+            # run still covers every kind; position, multiplicity and program are drawn
+            ch.pick(C11_MISTAKES, "mistake")
+            kind = C11_MISTAKES[(params.get("_index", 0) * 3 + mi) % len(C11_MISTAKES)] \
+                if params.get("_index", -1) >= 0 else C11_MISTAKES[0]
+            mistake = {"kind": kind, "k": ch.rng_int(1, 3, "k")}
             faults[mistake["kind"]] = faults.get(mistake["kind"], 0) + 1
         g = gen.ProgGen(ch, {"max_stmts": params.get("max_stmts", 10), "allow_capture": True,
                              "shadow_names": True, "int_helper": True})
